@@ -18,7 +18,13 @@ P = {'id': 'C12',
               'sa_equal_range_exact',
               'sa_match_continuation_longest',
               'da_match_is_continuation',
-              'da_match_max_length_longest'],
+              'da_match_max_length_longest',
+              'esa_lcp_at_is_kasai',
+              'esa_bwt_is_bwt',
+              'cesa_lcp_at_is_kasai',
+              'cesa_too_long_refused',
+              'stored_width_exact_iff',
+              'cesa_narrow_width_refuted'],
  'trusted': ['modelled (M+S): src/algorithms/suffix_array.rs SuffixArray::{compare_suffix_pattern, lower_bound, upper_bound, search_range, search}, '
              'SuffixArrayBuilder::{select_algorithm, build, build_sequential, build_parallel, dc3_construct, divsufsort_construct, '
              'larsson_sadakane_construct, fallback_sort}, LcpArray::compute_lcp_kasai, EnhancedSuffixArray::compute_bwt; '
